@@ -399,6 +399,28 @@ func TestC08_Derived(t *testing.T) {
 			ill := rapid.SampledFrom([]string{"#", "\\", "&", "|", "^", "~", "$", "`", "@", "\xc3\xa9", "\xff"}).Draw(rt, "illegal")
 			run(parseCase{Src: src[:pos] + ill + src[pos:], MustReject: true, Why: "illegal character " + ill + " inside code"}, "illegal-char")
 		}
+		// (c2) a code token replaced by an illegal character (also in name positions)
+		codeTok := regexp.MustCompile(`[A-Za-z_][A-Za-z0-9_]*|[0-9]+`)
+		for _, sp := range pr.Spans {
+			if sp.Kind != "braces" && sp.Kind != "header" {
+				continue
+			}
+			from := sp.OpenEnd
+			if sp.Kind == "header" {
+				from = sp.Start + strings.IndexByte(src[sp.Start:], '(') + 1
+			}
+			seg := src[from:sp.End]
+			if strings.ContainsAny(seg, "\"'") {
+				continue // keep clear of string literals
+			}
+			locs := codeTok.FindAllStringIndex(seg, -1)
+			if len(locs) == 0 {
+				continue
+			}
+			loc := locs[rapid.IntRange(0, len(locs)-1).Draw(rt, "replaceTok")]
+			ill := rapid.SampledFrom([]string{"#", "\\", "&", "|", "^", "~", "$", "`", "@"}).Draw(rt, "illegalRepl")
+			run(parseCase{Src: src[:from+loc[0]] + ill + src[from+loc[1]:], MustReject: true, Why: "code token replaced by the illegal character " + ill}, "illegal-char-replacing-token")
+		}
 		// (d) lexeme mutations
 		lex := splitLexemes(src)
 		if len(lex) > 0 {
